@@ -247,6 +247,7 @@ func newDedupRunner(u *universe) *dedupRunner {
 		"sorted_unique": `RETURN TAKE(SORTED_UNIQUE(SRC()))`,
 		"collect":       `LET d = (FOR x IN SRC() COLLECT k = x RETURN k) RETURN TAKE(d)`,
 		"collect_count": `LET d = (FOR x IN SRC() COLLECT k = x WITH COUNT INTO c RETURN [k, c]) RETURN TAKE(d)`,
+		"collect2":      `LET d = (FOR x IN SRC() COLLECT a = x[0], b = x[1] RETURN [a, b]) RETURN TAKE(d)`,
 	} {
 		p, err := c.Compile(q)
 		Must(err)
@@ -365,6 +366,17 @@ func (d *dedupRunner) run(in []int) (outs [][]int, counts []int) {
 		keys = []int{len(u.vals)}
 	}
 	outs = append(outs, keys)
+	// 8 COLLECT a = x[0], b = x[1]: only when every input is a two-element array;
+	// grouping by (a, b) is grouping by the pair [a, b] itself
+	allPairs := len(vals) > 0
+	for _, x := range vals {
+		if a, ok := x.(*values.Array); !ok || a.Length() != 2 {
+			allPairs = false
+		}
+	}
+	if allPairs {
+		outs = append(outs, u.indices(d.query("collect2")))
+	}
 	return
 }
 
@@ -609,7 +621,53 @@ func run(out, tier string, seed int64) {
 	var dIdx []interface{}
 	dcases := []string{}
 	dDistinct := map[string]struct{}{}
-	constructs := []string{"RETURN DISTINCT", "UniqueIterator", "arrays.Unique", "UNIQUE", "UNION_DISTINCT", "SORTED_UNIQUE", "COLLECT", "COLLECT WITH COUNT"}
+	// values that compare equal in the sort order without being structurally
+	// identical (1 and 1.0, 0.0 and -0.0, [0] and [0.0], same instant in two
+	// zones, binaries of one length): a de-duplicator that decides by order
+	// instead of by hash merges them
+	var tieGroups [][]int
+	{
+		lim := len(vals)
+		if lim > 260 {
+			lim = 260
+		}
+		used := map[int]bool{}
+		for i := 0; i < lim; i++ {
+			if used[i] {
+				continue
+			}
+			g := []int{i}
+			for j := i + 1; j < lim; j++ {
+				if !used[j] && u.rendered[i] != u.rendered[j] && safeCompareEq(vals[i], vals[j]) {
+					g = append(g, j)
+					used[j] = true
+				}
+			}
+			if len(g) > 1 {
+				tieGroups = append(tieGroups, g)
+			}
+		}
+	}
+	m.Extra["tie_groups"] = len(tieGroups)
+	// two-element arrays of the universe, each with its swapped twin when present
+	var pairIdx [][]int
+	{
+		byText := map[string]int{}
+		for i := range vals {
+			byText[u.rendered[i]] = i
+		}
+		for i, v := range vals {
+			if a, ok := v.(*values.Array); ok && a.Length() == 2 {
+				g := []int{i}
+				sw := values.NewArrayWith(a.Get(1), a.Get(0))
+				if j, ok := byText[CoqValue(sw)]; ok && j != i {
+					g = append(g, j)
+				}
+				pairIdx = append(pairIdx, g)
+			}
+		}
+	}
+	constructs := []string{"RETURN DISTINCT", "UniqueIterator", "arrays.Unique", "UNIQUE", "UNION_DISTINCT", "SORTED_UNIQUE", "COLLECT", "COLLECT WITH COUNT", "COLLECT a = x[0], b = x[1]"}
 	for k := 0; k < nDedup; k++ {
 		var in []int
 		tags := []string{}
@@ -619,8 +677,35 @@ func run(out, tier string, seed int64) {
 			poolN = 2
 		}
 		pool := make([]int, poolN)
+		tie := []int(nil)
+		if !withWitness && len(tieGroups) > 0 && k%3 == 0 {
+			tie = tieGroups[rng.Intn(len(tieGroups))]
+			if poolN < 2 {
+				poolN = 2
+				pool = make([]int, poolN)
+			}
+			tags = append(tags, "order-ties-in-input")
+		}
+		pairs := k%7 == 3 && len(pairIdx) > 0 && !withWitness
+		if pairs {
+			tie = nil
+			tags = append(tags, "two-key-collect")
+		}
 		for i := range pool {
 			switch {
+			case pairs:
+				g := pairIdx[rng.Intn(len(pairIdx))]
+				pool[i] = g[rng.Intn(len(g))]
+				if i == 1 && len(pairIdx[0]) > 0 {
+					// make sure a swapped twin of pool[0] is present when it exists
+					for _, gg := range pairIdx {
+						if gg[0] == pool[0] && len(gg) > 1 {
+							pool[i] = gg[1]
+						}
+					}
+				}
+			case tie != nil && i < len(tie):
+				pool[i] = tie[i]
 			case withWitness && i == 0:
 				pool[i] = witnessStart + 2*rng.Intn(nWitness)
 			case withWitness && i == 1:
@@ -780,6 +865,15 @@ func run(out, tier string, seed int64) {
 		m.Samples = append(m.Samples, dIdx[3])
 	}
 	m.Write(out)
+}
+
+func safeCompareEq(a, b core.Value) (eq bool) {
+	defer func() {
+		if recover() != nil {
+			eq = false
+		}
+	}()
+	return a.Compare(b) == 0 && b.Compare(a) == 0
 }
 
 func kinds(xs []core.Value) []string {
